@@ -667,13 +667,15 @@ def run(ctx):
         tasks.append(("packstream", part, zbufs))
     # (g)
     names = [b"".join(t) for n in (1, 2, 3) for t in itertools.product(CAP_ALPHA, repeat=n)]
+    # interior (never leading/trailing) non-space whitespace is legal capability content
+    names += [b"a\tb", b"a\rb", b"a\x0bb", b"a\x0cb", b"agent=x\ty"]
     caps_items = []
     refs = [b"refs/heads/a", b"HEAD", b"refs/heads/\xc3\xa9:="]
     for rn in refs:
         caps_items.append((rn, None))
         for c in names:
             caps_items.append((rn, (c,)))
-    short = [b"".join(t) for n in (1, 2) for t in itertools.product(CAP_ALPHA, repeat=n)]
+    short = [b"".join(t) for n in (1, 2) for t in itertools.product(CAP_ALPHA, repeat=n)] + [b"a\tb", b"a\x0cb"]
     for a, b in itertools.product(short, repeat=2):
         caps_items.append((refs[0], (a, b)))
     if not q:
